@@ -105,11 +105,17 @@ fn run_child(text: &str, costs: &[u8], mode: &str, start: usize, deadline: Durat
         let _ = si.write_all(format!("{}\n{}", join(costs), text).as_bytes());
     }
     let t0 = Instant::now();
+    let pid = ch.id();
     loop {
         match ch.try_wait() {
             Ok(Some(_)) => break,
             Ok(None) => {
-                if t0.elapsed() > deadline {
+                // the deadline is CPU time of the child (a loaded machine is not a hang); wall-clock fallback
+                let over = match crate::gen::worker::cpu_ms(pid) {
+                    Some(u) => u as u128 > deadline.as_millis(),
+                    None => t0.elapsed() > deadline,
+                };
+                if over || t0.elapsed() > deadline * crate::gen::worker::WALL_FACTOR {
                     let _ = ch.kill();
                     let _ = ch.wait();
                     break;
